@@ -165,8 +165,20 @@ fn gen_guest(rng: &mut Rng) -> GuestSpec {
             5 => Block::Tick,
             6 => Block::Trapa(rng.range(1, 3) as u8),
             7 => Block::SetCcr(rng.u8()),
-            8 => Block::Write { text: (0..rng.below(20)).map(|_| *rng.pick(b"ab \n\\")).collect(), dram: rng.chance(1, 2) },
-            9 => Block::SetHandler { vector: pool[rng.below(6) as usize] as u32, handler: 0 },
+            8 => {
+                if rng.chance(1, 6) {
+                    // long valid UTF-8 with multi-byte characters everywhere (any fixed byte offset may fall inside one)
+                    let n = *rng.pick(&[130usize, 260, 1030, 2060, 4100]);
+                    let mut t: Vec<u8> = Vec::new();
+                    while t.len() < n {
+                        t.extend_from_slice(rng.pick(&["a", "\u{e9}", "\u{3042}", "\u{1f600}", "\\", "\n"]).as_bytes());
+                    }
+                    Block::Write { text: t, dram: true }
+                } else {
+                    Block::Write { text: (0..rng.below(20)).map(|_| *rng.pick(b"ab \n\\")).collect(), dram: rng.chance(1, 2) }
+                }
+            }
+            9 => Block::SetHandler { vector: if rng.chance(1, 4) { *rng.pick(&[0x4000_0024u32, 0x8000_0001, 0xffff_ff3f, 0x4000_0000, 0x7fff_ffff, 0x100, 0x13f]) } else { pool[rng.below(6) as usize] as u32 }, handler: 0 },
             10 => Block::Store { addr: 0xffff80 + 2 * rng.below(5) as u32, val: rng.u8(), short: rng.chance(1, 2) },
             11 => Block::Store { addr: if rng.chance(1, 2) { 0xfee000 } else { 0xffffd0 } + rng.below(11) as u32, val: rng.u8(), short: false },
             12 => Block::Store { addr: 0xfee020 + rng.below(7) as u32, val: rng.u8(), short: false },
